@@ -174,7 +174,7 @@ func c12Judge(sc *Scenario, st *engine.Stats, res *engine.JobResult) {
 		}
 		res.Violate(sc.Family+":"+kind,
 			fmt.Sprintf("scenario %s: %d execution(s) observed %s but the canonical schedule gives %s", sc.Name, n, obs, canon),
-			schedCase{Scenario: *sc, Trace: st.FirstTrace[obs], Obs: obs, Expect: canon})
+			schedCase{Scenario: *sc, Trace: st.FirstTrace[obs], Suspend: suspendOf(obs), Obs: obs, Expect: canon})
 	}
 	if strings.HasPrefix(canon, "panic") || strings.HasPrefix(canon, "deadlock") {
 		res.Violate(sc.Family+":canonical-"+strings.SplitN(canon, "|", 2)[0], fmt.Sprintf("scenario %s: canonical schedule ends in %s", sc.Name, canon), schedCase{Scenario: *sc, Obs: canon})
@@ -325,7 +325,7 @@ func init() {
 				res := &engine.JobResult{Evals: 2}
 				fn := c.Scenario.execFn()
 				_, canon := fn(nil)
-				_, obs := fn(c.Trace)
+				obs := replayCase(&c)
 				if obs != canon {
 					res.Violate(c.Scenario.Family+":replayed", fmt.Sprintf("trace %v gives %s; canonical schedule gives %s", c.Trace, obs, canon), c)
 				}
@@ -374,41 +374,78 @@ func init() {
 // c12RacePass runs the scenario bodies free-running under the Go race detector (threads 1..16,
 // several GOMAXPROCS). A report is a violation; silence is an assumption of the scheduler runs.
 func c12RacePass(total *engine.JobResult) {
+	racePass("C12", total, []string{"1", "2", "4", "16"}, nil)
+	// and every scenario family once in a cold process (first use of anything lazily initialised)
+	seen := map[string]bool{}
+	var cold []string
+	for _, sc := range c12All("quick") {
+		if !seen[sc.Family] && sc.Call.NCPU >= 2 {
+			seen[sc.Family] = true
+			cold = append(cold, sc.Name)
+		}
+	}
+	racePass("C12", total, []string{"4"}, cold)
+}
+
+// racePass runs `vcheck_race racepass <id> [scenario]` once per GOMAXPROCS value (and, if cold is given,
+// once per listed scenario name, each in its own process).
+func racePass(id string, total *engine.JobResult, gmps []string, cold []string) {
 	bin := filepath.Join(os.Getenv("VERIF_BUILD"), "vcheck_race")
 	if _, err := os.Stat(bin); err != nil {
 		total.Notes = append(total.Notes, "race pass skipped: no -race harness build")
 		return
 	}
 	runs := 0
-	for _, gmp := range []string{"1", "2", "4", "16"} {
-		cmd := exec.Command(bin, "racepass")
-		logp := filepath.Join(engine.Scratch(), "race_report_"+gmp)
-		cmd.Env = append(os.Environ(), "GOMAXPROCS="+gmp, "GORACE=exitcode=66 halt_on_error=1 log_path="+logp)
-		out, err := cmd.CombinedOutput()
-		if err != nil {
-			rep := string(out)
-			if fs, _ := filepath.Glob(logp + "*"); len(fs) > 0 {
-				b, _ := os.ReadFile(fs[0])
-				rep = string(b)
-			}
-			ee, isExit := err.(*exec.ExitError)
-			if strings.Contains(rep, "DATA RACE") || (isExit && ee.ExitCode() == 66) {
-				if i := strings.Index(rep, "WARNING: DATA RACE"); i >= 0 {
-					rep = rep[i:]
+	names := cold
+	if names == nil {
+		names = []string{""}
+	}
+	for _, gmp := range gmps {
+		for _, name := range names {
+			cmd := exec.Command(bin, "racepass", id, name)
+			logp := filepath.Join(engine.Scratch(), "race_report_"+gmp)
+			cmd.Env = append(os.Environ(), "GOMAXPROCS="+gmp, "GORACE=exitcode=66 halt_on_error=1 log_path="+logp)
+			out, err := cmd.CombinedOutput()
+			if err != nil {
+				rep := string(out)
+				if fs, _ := filepath.Glob(logp + "*"); len(fs) > 0 {
+					b, _ := os.ReadFile(fs[0])
+					rep = string(b)
+					for _, f := range fs {
+						os.Remove(f)
+					}
 				}
-				if len(rep) > 3000 {
-					rep = rep[:3000]
+				ee, isExit := err.(*exec.ExitError)
+				if strings.Contains(rep, "DATA RACE") || (isExit && ee.ExitCode() == 66) {
+					if i := strings.Index(rep, "WARNING: DATA RACE"); i >= 0 {
+						rep = rep[i:]
+					}
+					if len(rep) > 3000 {
+						rep = rep[:3000]
+					}
+					total.Violate("data-race", "the Go race detector reported a race in a free-running run (GOMAXPROCS="+gmp+" "+name+"): "+rep, map[string]string{"gomaxprocs": gmp, "scenario": name, "report": rep})
+					return
 				}
-				total.Violate("data-race", "the Go race detector reported a race in a free-running run (GOMAXPROCS="+gmp+"): "+rep, map[string]string{"gomaxprocs": gmp, "report": rep})
-				return
+				if strings.Contains(rep, "fatal error: concurrent map") {
+					total.Violate("data-race", "the Go runtime aborted a free-running run (GOMAXPROCS="+gmp+" "+name+"): "+firstLines(rep, 12), map[string]string{"gomaxprocs": gmp, "scenario": name, "report": firstLines(rep, 40)})
+					return
+				}
+				engine.EngineError("race pass failed: %v: %.500s", err, out)
 			}
-			engine.EngineError("race pass failed: %v: %.500s", err, out)
+			var n int
+			if i := strings.Index(string(out), "racepass runs="); i >= 0 {
+				fmt.Sscanf(string(out)[i:], "racepass runs=%d", &n)
+			}
+			runs += n
 		}
-		var n int
-		if i := strings.Index(string(out), "racepass runs="); i >= 0 {
-			fmt.Sscanf(string(out)[i:], "racepass runs=%d", &n)
-		}
-		runs += n
 	}
 	total.Count("race_pass_free_running_runs", runs)
+}
+
+func firstLines(s string, n int) string {
+	ls := strings.Split(s, "\n")
+	if len(ls) > n {
+		ls = ls[:n]
+	}
+	return strings.Join(ls, "\n")
 }
